@@ -23,7 +23,7 @@ def _save_func(m):
         for c in calls_in(fi.node):
             if call_name(c) in ('os.rename', 'os.replace'):
                 return fi, c
-    raise AnchorMissing('no method of PersistentMixin renames a file (atomic replace missing)')
+    raise AnchorMissing('no method of PersistentMixin renames a file (atomic replace missing)', violation='frappy.persistent.PersistentMixin:atomic replace by rename')
 
 
 def _is_write_mode(call):
